@@ -254,7 +254,7 @@ func (d *driver) runChunk(spec PhaseSpec, wi int, from, to uint64, deadline time
 		d.mu.Lock()
 		agg.Violating++
 		agg.Runs += idx - from + 1
-		d.found = append(d.found, found{spec, WorkerViolation{Index: idx, RunSeed: rs, Violation: v, Tape: nil}})
+		d.found = append(d.found, found{spec, WorkerViolation{ChunkFrom: from, Index: idx, RunSeed: rs, Violation: v, Tape: nil}})
 		d.mu.Unlock()
 		respawns++
 		if respawns >= 3 {
@@ -475,7 +475,16 @@ func (d *driver) confirm(f found, replayDir string) (string, bool, string) {
 		rf.Note = "judged from the fresh process' exit status and report (the violation kills the process)"
 		writeJSON(path, rf)
 		ok, out := d.childShows(path, f.phase.Race, f.wv.Violation, tag)
-		return path, ok, out
+		if ok {
+			return path, ok, out
+		}
+		// not shown by the run alone: state left by the earlier runs of the
+		// dead worker may be needed (a free list, a cache). Replay its history.
+		hist := rf
+		hist.Tape, hist.TapeFull, hist.Shrunk, hist.EventHash = nil, 0, 0, ""
+		return d.confirmHistory(path, hist, f, tag, out, func(file string) (bool, string) {
+			return d.childShows(file, f.phase.Race, f.wv.Violation, tag)
+		}, false)
 	}
 	writeJSON(path, rf)
 	code, out := d.childReplay(path, f.phase.Race, tag)
@@ -488,6 +497,16 @@ func (d *driver) confirm(f found, replayDir string) (string, bool, string) {
 	// minimise the history by delta debugging over fresh child processes.
 	hist := rf
 	hist.Tape, hist.TapeFull, hist.Shrunk, hist.EventHash = nil, 0, 0, ""
+	return d.confirmHistory(path, hist, f, tag, out, func(file string) (bool, string) {
+		c, o := d.childReplay(file, f.phase.Race, tag)
+		return c == 0, o
+	}, true)
+}
+
+// confirmHistory replays the violating run after the runs that preceded it in
+// its worker process, minimises that history by delta debugging over fresh
+// child processes and writes the result to path. shows judges one replay file.
+func (d *driver) confirmHistory(path string, hist ReplayFile, f found, tag, out string, shows func(string) (bool, string), pinHash bool) (string, bool, string) {
 	var pre []uint64
 	for i := f.wv.ChunkFrom; i < f.wv.Index; i++ {
 		pre = append(pre, i)
@@ -507,8 +526,7 @@ func (d *driver) confirm(f found, replayDir string) (string, bool, string) {
 		h := hist
 		h.Prelude = join(l)
 		writeJSON(tmp, h)
-		c, o := d.childReplay(tmp, f.phase.Race, tag)
-		return c == 0, o
+		return shows(tmp)
 	}
 	ok, o2 := test(pre)
 	if !ok {
@@ -550,15 +568,18 @@ func (d *driver) confirm(f found, replayDir string) (string, bool, string) {
 	hist.Shrunk = execs
 	hist.Note = fmt.Sprintf("history-dependent: the run only fails after the listed earlier runs of the same process (%d of the %d that preceded it in its worker were needed after delta debugging); all runs are regenerated from their seeds", len(pre), f.wv.Index-f.wv.ChunkFrom)
 	writeJSON(path, hist)
-	c1, o1 := d.childReplay(path, f.phase.Race, tag)
-	if c1 != 0 {
+	ok1, o1 := shows(path)
+	if !ok1 {
 		return path, false, o1
+	}
+	if !pinHash {
+		return path, true, o1
 	}
 	if m := regexp.MustCompile(`event_hash=([0-9a-f]{16})`).FindStringSubmatch(o1); m != nil {
 		hist.EventHash = m[1]
 		writeJSON(path, hist)
-		c2, o2 := d.childReplay(path, f.phase.Race, tag)
-		return path, c2 == 0, o2
+		ok2, o2 := shows(path)
+		return path, ok2, o2
 	}
 	return path, true, o1
 }
